@@ -10,6 +10,7 @@ import (
 	"strings"
 	"testing"
 
+	"github.com/DistCompiler/pgo/distsys/tla"
 	"pgregory.net/rapid"
 
 	"verif/harness/sched"
@@ -286,3 +287,168 @@ func TestC02PBKVS(t *testing.T) {
 	})
 	g.judgeAll(t, "pbkvs")
 }
+
+// ---- raftkvs ------------------------------------------------------------------------------------------
+
+// raftPair describes the raftkvs pair: every global of the translation is rendered from the binding (shared
+// variables from the shadow kept from committed write events, the network bag from the harness links, the
+// channels from the harness queues); pc and the process locals from the contexts.
+func raftPair(r *sysbind.Raft) *spectrace.Pair {
+	n, nc := r.O.NumServers, r.O.NumClients
+	var procs, srv0, srv1, srv2, srv3, srv4 []*sched.Instance
+	for _, g := range r.Servers {
+		procs = append(procs, g...)
+		srv0, srv1, srv2, srv3, srv4 = append(srv0, g[0]), append(srv1, g[1]), append(srv2, g[2]), append(srv3, g[3]), append(srv4, g[4])
+	}
+	procs = append(procs, r.Clients...)
+	fn := func(keys []int, val func(k int) string) string {
+		if len(keys) == 0 {
+			return "<<>>"
+		}
+		ps := make([]string, len(keys))
+		for i, k := range keys {
+			ps[i] = fmt.Sprintf("(%d :> (%s))", k, val(k))
+		}
+		return "(" + strings.Join(ps, " @@ ") + ")"
+	}
+	servers := make([]int, n)
+	for i := range servers {
+		servers[i] = i + 1
+	}
+	nodes := append([]int{}, servers...)
+	var clients []int
+	for c := 1; c <= nc; c++ {
+		nodes = append(nodes, 6*n+c)
+		clients = append(clients, 6*n+c)
+	}
+	rng := func(lo, hi int) []int {
+		var out []int
+		for i := lo; i <= hi; i++ {
+			out = append(out, i)
+		}
+		return out
+	}
+	seq := func(vs []tla.Value) string {
+		ps := make([]string, len(vs))
+		for i, v := range vs {
+			ps[i] = spectrace.RenderValue(v)
+		}
+		return "<<" + strings.Join(ps, ", ") + ">>"
+	}
+	shared := []string{"state", "currentTerm", "commitIndex", "nextIndex", "matchIndex", "log", "votedFor", "votesResponded", "votesGranted", "leader", "sm", "smDomain"}
+	extraVars := append([]string{"network", "fd", "plog", "leaderTimeout", "appendEntriesCh", "becomeLeaderCh", "reqCh", "respCh",
+		"requestVoteSrvId", "appendEntriesSrvId", "advanceCommitIndexSrvId", "becomeLeaderSrvId", "crasherSrvId", "timeout", "srvId4"}, shared...)
+	extra := func() spectrace.State {
+		s := spectrace.State{}
+		s["network"] = fn(nodes, func(k int) string {
+			count := map[string]int{}
+			var order []string
+			for _, m := range r.Queued(k) {
+				t := spectrace.RenderValue(m)
+				if count[t] == 0 {
+					order = append(order, t)
+				}
+				count[t]++
+			}
+			bag := "<<>>"
+			if len(order) > 0 {
+				ps := make([]string, len(order))
+				for i, t := range order {
+					ps[i] = fmt.Sprintf("(%s) :> %d", t, count[t])
+				}
+				bag = "(" + strings.Join(ps, " @@ ") + ")"
+			}
+			return "[queue |-> " + bag + ", enabled |-> TRUE]"
+		})
+		s["fd"] = fn(servers, func(int) string { return "FALSE" })
+		for _, v := range shared {
+			v := v
+			s[v] = fn(servers, func(k int) string { return spectrace.RenderValue(r.Shadow[k-1][v]) })
+		}
+		s["plog"] = fn(servers, func(k int) string { return spectrace.RenderValue(r.PlogSpec[k-1]) })
+		s["leaderTimeout"] = spectrace.RenderValue(r.LeaderTimeout)
+		s["appendEntriesCh"] = fn(servers, func(k int) string { return seq(r.ChanItems("append", k)) })
+		s["becomeLeaderCh"] = fn(servers, func(k int) string { return seq(r.ChanItems("become", k)) })
+		s["reqCh"] = "defaultInitValue"
+		s["respCh"] = spectrace.RenderValue(r.LastResp)
+		s["requestVoteSrvId"] = fn(rng(n+1, 2*n), func(k int) string { return fmt.Sprint(k - n) })
+		s["appendEntriesSrvId"] = fn(rng(2*n+1, 3*n), func(k int) string { return fmt.Sprint(k - 2*n) })
+		s["advanceCommitIndexSrvId"] = fn(rng(3*n+1, 4*n), func(k int) string { return fmt.Sprint(k - 3*n) })
+		s["becomeLeaderSrvId"] = fn(rng(4*n+1, 5*n), func(k int) string { return fmt.Sprint(k - 4*n) })
+		s["crasherSrvId"] = "<<>>"
+		s["timeout"] = fn(clients, func(int) string { return "FALSE" })
+		s["srvId4"] = "<<>>"
+		return s
+	}
+	loc := func(tlaName, goName string, owners []*sched.Instance) spectrace.Local {
+		return spectrace.Local{TLA: tlaName, Go: goName, Owners: owners}
+	}
+	return &spectrace.Pair{Module: "raftkvs", SpecPath: "/repo/systems/raftkvs/raftkvs.tla",
+		Constants: []string{fmt.Sprintf("NumServers = %d", n), fmt.Sprintf("NumClients = %d", nc), "ExploreFail = FALSE", "Debug = FALSE",
+			fmt.Sprintf("BufferSize = %d", r.O.MailboxCap), "MaxTerm = 1000", "MaxCommitIndex = 1000", "MaxNodeFail = 0",
+			`LogConcat = "log_concat"`, `LogPop = "log_pop"`, "LeaderTimeoutReset = TRUE", "NumRequests = 100",
+			`AllStrings = {"k1", "k2", "k3", "v1", "v2", "v3", "v4", "v5", "v6", "v7", "v8", "v9", "v10", "v11", "v12"}`},
+		Procs: procs, CheckInit: true, Extra: extra, ExtraVars: extraVars,
+		Locals: []spectrace.Local{
+			loc("idx", "AServer.idx", srv0), loc("m", "AServer.m", srv0), loc("srvId", "AServer.srvId", srv0),
+			loc("idx0", "AServerRequestVote.idx", srv1), loc("srvId0", "AServerRequestVote.srvId", srv1),
+			loc("idx1", "AServerAppendEntries.idx", srv2), loc("srvId1", "AServerAppendEntries.srvId", srv2),
+			loc("newCommitIndex", "AServerAdvanceCommitIndex.newCommitIndex", srv3), loc("srvId2", "AServerAdvanceCommitIndex.srvId", srv3),
+			loc("srvId3", "AServerBecomeLeader.srvId", srv4),
+			loc("leader0", "AClient.leader", r.Clients), loc("req", "AClient.req", r.Clients), loc("resp", "AClient.resp", r.Clients),
+			loc("reqIdx", "AClient.reqIdx", r.Clients)},
+		Actions: []string{"serverLoop", "handleMsg", "serverRequestVoteLoop", "requestVoteLoop", "serverAppendEntriesLoop", "appendEntriesLoop",
+			"serverAdvanceCommitIndexLoop", "applyLoop", "serverBecomeLeaderLoop", "clientLoop", "sndReq", "rcvResp"}}
+}
+
+func TestC02RaftKVS(t *testing.T) {
+	g := newGroups()
+	rapid.Check(t, func(t *rapid.T) {
+		if vstat.OverBudget() {
+			return
+		}
+		vstat.Case()
+		var p *spectrace.Pair
+		var tr spectrace.Trace
+		var before spectrace.State
+		run, msg := sysbind.DriveRaft(t, sysbind.RaftDriveOpts{MinClients: 1, MaxClients: 2, MaxSteps: 800, SpecChannels: true,
+			OnStart: func(run *sysbind.RaftRun) {
+				p = raftPair(run.R)
+				tr.Init = p.Snapshot()
+				before = tr.Init
+			},
+			OnCommit: func(run *sysbind.RaftRun, in *sched.Instance, st sched.Step) string {
+				post := p.Snapshot()
+				lbl := spectrace.Label(st.PC)
+				tr.Steps = append(tr.Steps, spectrace.Step{Lbl: lbl, Who: spectrace.RenderValue(in.Self), Post: post})
+				vstat.Class("raftkvs.label." + lbl)
+				if len(st.Event.Elements) > 2 {
+					key := "raftkvs|" + lbl + "|" + fmt.Sprint(before)
+					vstat.NonTrivial(key, func() string {
+						return fmt.Sprintf("raftkvs: %s(%s), servers=%d", lbl, spectrace.RenderValue(in.Self), run.R.O.NumServers)
+					})
+				}
+				before = post
+				return ""
+			},
+			OnAbort: func(run *sysbind.RaftRun, in *sched.Instance, st sched.Step) string {
+				after := p.Snapshot()
+				for k, v := range before {
+					if after[k] != v {
+						return fmt.Sprintf("the spec variable %s changed from %s to %s", k, v, after[k])
+					}
+				}
+				return ""
+			},
+		})
+		if msg != "" {
+			t.Fatalf("raftkvs: %s\n%s", msg, tailStr(run.Hist.String(), 3000))
+		}
+		if p != nil {
+			g.add(p, tr)
+		}
+	})
+	g.judgeAll(t, "raftkvs")
+}
+
+func tailStr(s string, n int) string { return tail(s, n) }
